@@ -502,7 +502,7 @@ fn gv_parse_event(cpsv: &[i64]) -> Value {
         let r = guard(|| GameVersion::from_str(&s2));
         let _ = tx.send(r);
     });
-    let mut e = json!({"ev": "GvParse", "in": cpsv, "minor": 0, "patch": -1, "reparse_eq": false});
+    let mut e = json!({"ev": "GvParse", "in": cpsv, "minor": 0, "patch": -1, "reparse_eq": false, "finite": true});
     match rx.recv_timeout(Duration::from_secs(3)) {
         Err(_) => e["res"] = json!("hang"),
         Ok(Err(())) => e["res"] = json!("panic"),
@@ -513,6 +513,7 @@ fn gv_parse_event(cpsv: &[i64]) -> Value {
             e["patch"] = json!(v.patch.map(|p| p as i64).unwrap_or(-1));
             let printed = v.to_string();
             e["printed"] = cps(&printed);
+            e["finite"] = json!(v.major.is_finite());
             e["reparse_eq"] = json!(matches!(guard(|| GameVersion::from_str(&printed)), Ok(Ok(v2)) if v2 == v && v2.cmp(&v) == std::cmp::Ordering::Equal));
         },
     }
@@ -642,6 +643,33 @@ pub fn cmd_values_trace(a: &HashMap<String, String>) -> i32 {
                 let s: Vec<i64> = s.into_iter().map(|c| if c == 0x663 { 200001 } else { c }).collect();
                 let _ = writeln!(w, "{}", gv_parse_event(&s));
                 n += 1;
+            }
+            // number shapes across the whole magnitude range of the f32 behind the version number: k integer digits,
+            // z zeros after the point, with and without letter / revision (the printed form must parse back whenever finite)
+            for k in 0..46usize {
+                for z in (0..52usize).chain([60, 80]) {
+                    for (lead, tail) in [(49i64, 0i64), (57, 57), (55, 49)] {
+                        let mut num: Vec<i64> = Vec::new();
+                        if k > 0 {
+                            num.push(lead);
+                            num.extend(std::iter::repeat(48).take(k - 1));
+                        }
+                        if z > 0 || k == 0 {
+                            num.push(46);
+                            num.extend(std::iter::repeat(48).take(z));
+                            num.push(if tail == 0 { 49 } else { tail });
+                        }
+                        for suffix in [vec![], vec![75], vec![102, 49, 50]] {
+                            if (k + z) % 3 != 0 && !suffix.is_empty() && k > 2 && z > 2 {
+                                continue;
+                            }
+                            let mut s = num.clone();
+                            s.extend(suffix);
+                            let _ = writeln!(w, "{}", gv_parse_event(&s));
+                            n += 1;
+                        }
+                    }
+                }
             }
         },
         _ => return 2,
